@@ -732,6 +732,28 @@ P("seed-C19-16", ["C19"], "seeded/C19-16/patch.diff")
 P("seed-C20-15", ["C20"], "seeded/C20-15/patch.diff")
 P("seed-C20-16", ["C20"], "seeded/C20-16/patch.diff")
 
+# ------------------------------------------------------------------ round-12 seeds (20; 12 at first contact, 17 after the rules of DESIGN 7.12;
+# C01-17 is reported by C02 and C17, C01-18 and C17-17 are value-level)
+P("seed-C02-17", ["C02"], "seeded/C02-17/patch.diff")
+P("seed-C02-18", ["C02"], "seeded/C02-18/patch.diff")
+P("seed-C03-17", ["C03"], "seeded/C03-17/patch.diff")
+P("seed-C03-18", ["C03"], "seeded/C03-18/patch.diff")
+P("seed-C06-17", ["C06"], "seeded/C06-17/patch.diff")
+P("seed-C06-18", ["C06"], "seeded/C06-18/patch.diff")
+P("seed-C07-17", ["C07"], "seeded/C07-17/patch.diff")
+P("seed-C07-18", ["C07"], "seeded/C07-18/patch.diff")
+P("seed-C10-17", ["C10"], "seeded/C10-17/patch.diff")
+P("seed-C10-18", ["C10"], "seeded/C10-18/patch.diff")
+P("seed-C11-17", ["C11"], "seeded/C11-17/patch.diff")
+P("seed-C11-18", ["C11"], "seeded/C11-18/patch.diff")
+P("seed-C15-17", ["C15"], "seeded/C15-17/patch.diff")
+P("seed-C15-18", ["C15"], "seeded/C15-18/patch.diff")
+P("seed-C16-17", ["C16"], "seeded/C16-17/patch.diff")
+P("seed-C16-18", ["C16"], "seeded/C16-18/patch.diff")
+P("seed-C17-18", ["C17"], "seeded/C17-18/patch.diff")
+B("c03-overlap-one-sided", ["C03"], "helpers.py", "    return max(start_1, start_2) < min(end_1, end_2)\n", "    return start_1 <= start_2 < end_1\n", rule="R-C03-10")
+N("c03-overlap-two-comparisons", ["C03", "C19"], "helpers.py", "    return max(start_1, start_2) < min(end_1, end_2)\n", "    return start_1 < end_2 and start_2 < end_1\n")
+
 # ------------------------------------------------------------------ generated whole-package benign rewrites (every property)
 for _g in ("reformat", "logging", "rename-locals"):
     VARIANTS.append({"id": f"gen-{_g}", "kind": "benign", "props": ["*"], "gen": _g})
